@@ -230,7 +230,7 @@ fn peer_info(rec: &RunRecord, peer: u32) -> PeerInfo {
     for s in rec.hist.sent.iter().filter(|s| s.peer == peer && s.epoch == 0) {
         match s.op {
             Op::CloseRead => info.closed_read = info.closed_read.or(Some(s.start)),
-            Op::CloseWrite => info.closed_write = info.closed_write.or(Some(s.start)),
+            Op::CloseWrite | Op::TornCmd { .. } => info.closed_write = info.closed_write.or(Some(s.start)),
             _ => {}
         }
         if !s.ok {
@@ -1198,7 +1198,7 @@ pub fn check_reporting(rec: &RunRecord) -> Vec<Violation> {
     // Peers whose view is unreliable from some step on.
     let mut unreliable_from: HashMap<u32, u64> = HashMap::new();
     for s in rec.hist.sent.iter().filter(|s| s.epoch == 0) {
-        if matches!(s.op, Op::CloseRead | Op::CloseWrite) || !s.ok {
+        if matches!(s.op, Op::CloseRead | Op::CloseWrite | Op::TornCmd { .. }) || !s.ok {
             let e = unreliable_from.entry(s.peer).or_insert(s.start);
             *e = (*e).min(s.start);
         }
@@ -1298,7 +1298,7 @@ pub fn check_reporting(rec: &RunRecord) -> Vec<Violation> {
             }
             if clean {
                 let cmds: u64 = rec.hist.sent.iter().filter(|s| s.epoch == 0 && s.ok && s.end <= qs).filter(|s| match &s.op {
-                    Op::Cmd { lane: l, .. } => (lane == "<aggregate>" && KNOWN_LANES.contains(&l.as_str())) || l == lane,
+                    Op::Cmd { lane: l, .. } | Op::BadCmd { lane: l, .. } => (lane == "<aggregate>" && KNOWN_LANES.contains(&l.as_str())) || l == lane,
                     _ => false,
                 }).count() as u64;
                 if cmd_sum != cmds {
